@@ -3,15 +3,15 @@ import TornadoModel.C08.Agree
 namespace TornadoModel.C08
 open TornadoModel.C06
 
-theorem isReSpace_ne_comma (c : Nat) (h : isReSpace c = true) : c ≠ 44 := by
-  intro e; subst e; simp [isReSpace] at h
+theorem isListWs_ne_comma (c : Nat) (h : isListWs c = true) : c ≠ 44 := by
+  intro e; subst e; simp [isListWs] at h
 
-/-- `re.split(r",\s*", v)` = split at the commas, then strip leading `\s` from every piece but the first -/
+/-- `re.split(r",[ \t]*", v)` = split at the commas, then strip leading SP / HTAB from every piece but the first -/
 theorem splitCommaWs_split : ∀ (v : Str) (skip : Bool),
     splitCommaWs skip v =
       match splitOnC 44 v with
       | [] => []
-      | p :: ps => (if skip then p.dropWhile isReSpace else p) :: ps.map (·.dropWhile isReSpace)
+      | p :: ps => (if skip then p.dropWhile isListWs else p) :: ps.map (·.dropWhile isListWs)
   | [], skip => by cases skip <;> simp [splitCommaWs, splitOnC]
   | c :: cs, skip => by
     have ih1 := splitCommaWs_split cs true
@@ -23,10 +23,10 @@ theorem splitCommaWs_split : ∀ (v : Str) (skip : Bool),
       rw [hs] at ih1 ih0
       simp only at ih1 ih0
       unfold splitCommaWs
-      by_cases h1 : (skip && isReSpace c) = true
+      by_cases h1 : (skip && isListWs c) = true
       · rw [if_pos h1, ih1]
         simp only [Bool.and_eq_true] at h1
-        have hc : c ≠ 44 := isReSpace_ne_comma c h1.2
+        have hc : c ≠ 44 := isListWs_ne_comma c h1.2
         simp only [splitOnC, hc, if_false, hs, h1.1, if_true, List.dropWhile_cons, h1.2]
       · rw [if_neg h1]
         by_cases hc : c = 44
@@ -39,7 +39,7 @@ theorem splitCommaWs_split : ∀ (v : Str) (skip : Bool),
           cases skip with
           | false => rfl
           | true =>
-            have : isReSpace c = false := by simpa using h1
+            have : isListWs c = false := by simpa using h1
             simp [this]
 
 /-! ### header-object facts: reading or setting one field leaves the other fields alone -/
@@ -123,30 +123,24 @@ def ClOut (h H : Headers) : Prop :=
 
 theorem nTE_ne_nCL : normalize sTransferEncoding ≠ normalize sContentLength := by decide
 
-/-- the model's Content-Length list test is the strict one when the list separators are comma + SP/HTAB only -/
-theorem cl_list_test (v p : Str) (ps : List Str) (hs : splitOnC 44 v = p :: ps)
-    (ho : ps.all (fun q => q.dropWhile isReSpace == q.dropWhile Spec.isOws) = true) :
+theorem isListWs_eq : isListWs = Spec.isOws := rfl
+
+/-- the model's Content-Length list test is the strict one -/
+theorem cl_list_test (v p : Str) (ps : List Str) (hs : splitOnC 44 v = p :: ps) :
     (match splitCommaWs false v with
       | [] => (none : Option Str)
       | p' :: ps' => if ps'.all (· == p') then some p' else none) = Spec.clMember v := by
   rw [splitCommaWs_split v false, hs]
   simp only [Bool.false_eq_true, if_false, Spec.clMember, hs]
-  have : (ps.map (·.dropWhile isReSpace)).all (· == p) = ps.all (fun q => q.dropWhile Spec.isOws == p) := by
-    have hq' : ∀ q ∈ ps, q.dropWhile isReSpace = q.dropWhile Spec.isOws := fun q hq => by
-      simpa using (List.all_eq_true.mp ho) q hq
-    rw [List.all_map, Bool.eq_iff_iff]
-    simp only [List.all_eq_true, Function.comp, beq_iff_eq]
-    constructor
-    · intro hh q hq; rw [← hq' q hq]; exact hh q hq
-    · intro hh q hq; rw [hq' q hq]; exact hh q hq
+  have : (ps.map (·.dropWhile isListWs)).all (· == p) = ps.all (fun q => q.dropWhile Spec.isOws == p) := by
+    rw [List.all_map, isListWs_eq]; rfl
   rw [this]
 
 theorem clStep_absent (h : Headers) (mb : Nat) (hc : contains h sContentLength = false) :
     clStep h mb = some (h, none) := by
   simp [clStep, hc]
 
-theorem clStep_strict (h : Headers) (mb : Nat) (v : Str) (hf : Spec.field h sContentLength = some v)
-    (ho : Spec.clOws h = true) :
+theorem clStep_strict (h : Headers) (mb : Nat) (v : Str) (hf : Spec.field h sContentLength = some v) :
     match (Spec.clMember v).bind parseDec with
     | none => clStep h mb = none
     | some n => if n > mb then clStep h mb = none else ∃ H, clStep h mb = some (H, some n) ∧ ClOut h H := by
@@ -157,8 +151,6 @@ theorem clStep_strict (h : Headers) (mb : Nat) (v : Str) (hf : Spec.field h sCon
   obtain ⟨v', h1, hgi, hf'⟩ := field_some hc
   rw [hf] at hf'; cases hf'
   have hal := getItem_asList h h1 _ v hgi
-  have ho' : (splitOnC 44 v).tail.all (fun q => q.dropWhile isReSpace == q.dropWhile Spec.isOws) = true := by
-    simpa [Spec.clOws, hf] using ho
   have hte1 : Spec.field h1 sTransferEncoding = Spec.field h sTransferEncoding :=
     field_getItem_other hgi nTE_ne_nCL
   have hshown : Spec.shown h =
@@ -173,13 +165,12 @@ theorem clStep_strict (h : Headers) (mb : Nat) (v : Str) (hf : Spec.field h sCon
     cases hs : splitOnC 44 v with
     | nil => exact absurd hs (splitOnC_ne_nil 44 v)
     | cons p ps =>
-      rw [hs] at ho'
-      have hm := cl_list_test v p ps hs ho'
+      have hm := cl_list_test v p ps hs
       have hmem : Spec.clMember v = if ps.all (fun q => q.dropWhile Spec.isOws == p) then some p else none := by
         simp only [Spec.clMember, hs]
       rw [splitCommaWs_split v false, hs] at hm ⊢
       simp only [Bool.false_eq_true, if_false] at hm ⊢
-      by_cases hall : (ps.map (·.dropWhile isReSpace)).all (· == p) = true
+      by_cases hall : (ps.map (·.dropWhile isListWs)).all (· == p) = true
       · rw [if_pos hall] at hm ⊢
         rw [← hm]
         simp only [Option.bind_some]
@@ -221,10 +212,9 @@ theorem clStep_strict (h : Headers) (mb : Nat) (v : Str) (hf : Spec.field h sCon
 theorem shown_absent (h : Headers) (hc : contains h sContentLength = false) : Spec.shown h = getAll h := by
   unfold Spec.shown; rw [field_none hc]
 
-/-- **readBody_eq_strict**: on a header set whose Content-Length list (if any) is separated by comma + SP/HTAB only,
-    the framing decision of `_read_body` / `is_transfer_encoding_chunked` and the header fields it leaves behind are
+/-- **readBody_eq_strict**: on every header set the framing decision of `_read_body` / `is_transfer_encoding_chunked` and the header fields it leaves behind are
     exactly those of the independently stated `Spec.framing` / `Spec.shown` — for every status code and limit. -/
-theorem readBody_eq_strict (code : Nat) (h : Headers) (mb : Nat) (ho : Spec.clOws h = true) :
+theorem readBody_eq_strict (code : Nat) (h : Headers) (mb : Nat) :
     (readBody code h mb).map (fun r => (getAll r.1, r.2)) =
       (Spec.framing code (Spec.field h sContentLength) (Spec.field h sTransferEncoding) mb).map
         (fun fr => (Spec.shown h, fr)) := by
@@ -250,7 +240,7 @@ theorem readBody_eq_strict (code : Nat) (h : Headers) (mb : Nat) (ho : Spec.clOw
       · simp [hch]
   | true =>
     obtain ⟨v, h1, hgi, hf⟩ := field_some hcl
-    have hcs := clStep_strict h mb v hf ho
+    have hcs := clStep_strict h mb v hf
     rw [hf]
     unfold readBody
     cases hb : (Spec.clMember v).bind parseDec with
@@ -291,48 +281,38 @@ theorem present_eq (cfg : Cfg) (Z : Bytes → GzRes) (c : Nat) (r : Str) (h : He
     Spec.present cfg Z c r h gz raw = Spec.presentL cfg Z c r (getAll h) gz raw := rfl
 
 /-- the batch reader that frames by `Spec.framing` and the one that frames by the model's `readBody` are the same
-    function on every stream whose final response has a comma + SP/HTAB separated Content-Length list (or none) -/
+    function (unconditionally, since the Content-Length-list fix) -/
 theorem strictRead_eq (cfg : Cfg) (Z : Bytes → GzRes) (eof : Bool) : ∀ (f : Nat) (s : Bytes),
-    (∀ h ∈ Spec.finalHeaders cfg f s, Spec.clOws h = true) →
     Spec.strictRead cfg Z eof f s = Spec.read cfg Z eof f s := by
   intro f
   induction f with
-  | zero => intro s _; rfl
+  | zero => intro s; rfl
   | succ f ih =>
-    intro s hfin
+    intro s
     unfold Spec.strictRead Spec.read
-    unfold Spec.finalHeaders at hfin
     cases he : findHeadEnd s with
     | none => rfl
     | some e =>
-      rw [he] at hfin
-      simp only at hfin ⊢
+      simp only
       cases hp : parseHead (s.take e) with
       | none => rfl
       | some q =>
         obtain ⟨⟨ver, code, reason⟩, h0⟩ := q
-        rw [hp] at hfin
-        simp only at hfin ⊢
+        simp only
         by_cases h1xx : (100 ≤ code && code < 200) = true
-        · rw [if_pos h1xx] at hfin
-          rw [if_pos h1xx, if_pos h1xx]
+        · rw [if_pos h1xx, if_pos h1xx]
           by_cases hct : (contains h0 sContentLength || contains h0 sTransferEncoding) = true
           · rw [if_pos hct, if_pos hct]
-          · rw [if_neg hct] at hfin
-            rw [if_neg hct, if_neg hct]
-            exact ih (s.drop e) hfin
-        · rw [if_neg h1xx] at hfin
-          rw [if_neg h1xx, if_neg h1xx]
+          · rw [if_neg hct, if_neg hct]
+            exact ih (s.drop e)
+        · rw [if_neg h1xx, if_neg h1xx]
           cases hg : (if cfg.decompress then gzipRewrite h0 else (h0, false)) with
           | mk h gz =>
-            rw [hg] at hfin
-            simp only at hfin ⊢
+            simp only
             by_cases hh : (cfg.isHead || code = 304) = true
             · rw [if_pos hh, if_pos hh, present_eq]
-            · rw [if_neg hh] at hfin
-              rw [if_neg hh, if_neg hh]
-              have ho : Spec.clOws h = true := hfin h (by simp)
-              have hrb := readBody_eq_strict code h cfg.maxBody ho
+            · rw [if_neg hh, if_neg hh]
+              have hrb := readBody_eq_strict code h cfg.maxBody
               cases hr : readBody code h cfg.maxBody with
               | none =>
                 rw [hr] at hrb
@@ -356,83 +336,18 @@ theorem strictRead_eq (cfg : Cfg) (Z : Bytes → GzRes) (eof : Bool) : ∀ (f : 
                   | none => rfl
                   | some raw => simp only; rw [present_eq, hga]
 
-theorem strictReadAll_eq (cfg : Cfg) (Z : Bytes → GzRes) (s : Bytes) (eof : Bool)
-    (hs : ∀ h ∈ Spec.finalHeaders cfg (s.length + 1) s, Spec.clOws h = true) :
+theorem strictReadAll_eq (cfg : Cfg) (Z : Bytes → GzRes) (s : Bytes) (eof : Bool) :
     Spec.strictReadAll cfg Z s eof = Spec.readAll cfg Z s eof :=
-  strictRead_eq cfg Z eof _ s hs
+  strictRead_eq cfg Z eof _ s
 
 /-! ### whatever the strict decision accepts, the code accepts with the same result -/
 
-theorem isOws_isReSpace (c : Nat) (h : Spec.isOws c = true) : isReSpace c = true := by
-  simp only [Spec.isOws, Bool.or_eq_true, decide_eq_true_eq] at h
-  rcases h with h | h <;> subst h <;> decide
-
-theorem dropWhile_space_eq (d : Nat) (hd : isReSpace d = false) : ∀ (q r : Str),
-    q.dropWhile Spec.isOws = d :: r → q.dropWhile isReSpace = q.dropWhile Spec.isOws
-  | [], _, h => by simp at h
-  | c :: cs, r, h => by
-    by_cases hc : Spec.isOws c = true
-    · have hs := isOws_isReSpace c hc
-      rw [List.dropWhile_cons_of_pos hc] at h ⊢
-      rw [List.dropWhile_cons_of_pos hs]
-      exact dropWhile_space_eq d hd cs r h
-    · rw [List.dropWhile_cons_of_neg hc] at h ⊢
-      cases h
-      rw [List.dropWhile_cons_of_neg (by simp [hd])]
-
-theorem isDigit_not_space (d : Nat) (h : isDigit d = true) : isReSpace d = false := by
-  simp only [isDigit, Bool.and_eq_true, decide_eq_true_eq] at h
-  simp only [isReSpace, Bool.or_eq_false_iff, Bool.and_eq_false_iff, decide_eq_false_iff_not]
-  omega
-
-theorem clOws_of_accept (h : Headers) (v : Str) (n : Nat) (hf : Spec.field h sContentLength = some v)
-    (hb : (Spec.clMember v).bind parseDec = some n) : Spec.clOws h = true := by
-  unfold Spec.clOws
-  rw [hf]
-  simp only
-  unfold Spec.clMember at hb
-  cases hs : splitOnC 44 v with
-  | nil => exact absurd hs (splitOnC_ne_nil 44 v)
-  | cons p ps =>
-    rw [hs] at hb
-    simp only at hb
-    by_cases hall : ps.all (fun q => q.dropWhile Spec.isOws == p) = true
-    · rw [if_pos hall] at hb
-      simp only [Option.bind_some, parseDec] at hb
-      split at hb
-      · rename_i hp
-        simp only [Bool.and_eq_true, Bool.not_eq_true', List.isEmpty_eq_false_iff] at hp
-        cases p with
-        | nil => exact absurd rfl hp.1
-        | cons d r =>
-          have hd : isReSpace d = false := isDigit_not_space d (by
-            have := hp.2; simp only [List.all_cons, Bool.and_eq_true] at this; exact this.1)
-          simp only [List.tail_cons, List.all_eq_true, beq_iff_eq]
-          intro q hq
-          have hqp := (List.all_eq_true.mp hall) q hq
-          simp only [beq_iff_eq] at hqp
-          exact dropWhile_space_eq d hd q r hqp
-      · cases hb
-    · rw [if_neg hall] at hb; cases hb
-
 /-- **strict_accepts_sound**: every header set the independently stated framing rule accepts is accepted by
-    `_read_body` with the same framing and the same header fields — no side condition. -/
+    `_read_body` with the same framing and the same header fields. -/
 theorem strict_accepts_sound (code : Nat) (h : Headers) (mb : Nat) (fr : Framing)
     (ha : Spec.framing code (Spec.field h sContentLength) (Spec.field h sTransferEncoding) mb = some fr) :
     ∃ h', readBody code h mb = some (h', fr) ∧ getAll h' = Spec.shown h := by
-  have ho : Spec.clOws h = true := by
-    cases hf : Spec.field h sContentLength with
-    | none => simp [Spec.clOws, hf]
-    | some v =>
-      rw [hf] at ha
-      cases hte : Spec.field h sTransferEncoding with
-      | some t => rw [hte] at ha; simp [Spec.framing] at ha
-      | none =>
-        rw [hte] at ha
-        cases hb : (Spec.clMember v).bind parseDec with
-        | none => simp [Spec.framing, hb] at ha
-        | some n => exact clOws_of_accept h v n hf hb
-  have hrb := readBody_eq_strict code h mb ho
+  have hrb := readBody_eq_strict code h mb
   rw [ha] at hrb
   cases hr : readBody code h mb with
   | none => rw [hr] at hrb; cases hrb
